@@ -163,8 +163,103 @@ let pframe_result (fr : frame_result) : string =
     (String.concat " " (List.map (fun (k, v) -> hex_of_bytes k ^ " " ^ hex_of_bytes v) md))
     (pevents evs) (match err with None -> "ok" | Some _ -> "err")
 
+
+(* ---- XC: the same command as a Coq Example (extraction cross-check) ---- *)
+let cq_n (x : n) : string = string_of_int (int_of_n x)
+let cq_list f l = "[" ^ String.concat "; " (List.map f l) ^ "]"
+let cq_bytes (b : n list) : string = if b = [] then "(@nil N)" else cq_list cq_n b
+let cq_bool b = if b then "true" else "false"
+let cq_opt f o = match o with None -> "None" | Some x -> "(Some " ^ f x ^ ")"
+let rec cq_term (t : term) : string =
+  match t with
+  | TIri s -> "(TIri " ^ cq_bytes s ^ ")"
+  | TBnode s -> "(TBnode " ^ cq_bytes s ^ ")"
+  | TLit (l, g, d) -> "(TLit " ^ cq_bytes l ^ " " ^ cq_opt cq_bytes g ^ " " ^ cq_opt cq_bytes d ^ ")"
+  | TTriple (s, p, o) -> "(TTriple " ^ cq_term s ^ " " ^ cq_term p ^ " " ^ cq_term o ^ ")"
+  | TDefault -> "TDefault"
+  | TOther -> "TOther"
+let cq_event (e : event) : string =
+  match e with
+  | ETriple (s, p, o) -> "(ETriple " ^ cq_term s ^ " " ^ cq_term p ^ " " ^ cq_term o ^ ")"
+  | EQuad (s, p, o, g) -> "(EQuad " ^ cq_term s ^ " " ^ cq_term p ^ " " ^ cq_term o ^ " " ^ cq_term g ^ ")"
+  | EPrefix (n, i) -> "(EPrefix " ^ cq_bytes n ^ " " ^ cq_bytes i ^ ")"
+let cq_events evs = if evs = [] then "(@nil event)" else cq_list cq_event evs
+let cq_stmts (l : term list list) = if l = [] then "(@nil (list term))" else cq_list (fun st -> if st = [] then "(@nil term)" else cq_list cq_term st) l
+let cq_pairs (l : (str * str) list) = if l = [] then "(@nil (str * str))" else cq_list (fun (a, b) -> "(" ^ cq_bytes a ^ ", " ^ cq_bytes b ^ ")") l
+let cq_flow_kind k = match k with FManual -> "FManual" | FBounded -> "FBounded" | FFlatTriples -> "FFlatTriples"
+                                  | FFlatQuads -> "FFlatQuads" | FGraphs -> "FGraphs" | FDatasets -> "FDatasets"
+let cq_flow (f : flow) =
+  Printf.sprintf "{| fl_kind := %s; fl_logical := %s; fl_frame_size := %s; fl_rows := (@nil row) |}"
+    (cq_flow_kind f.fl_kind) (cq_n f.fl_logical) (cq_n f.fl_frame_size)
+let cq_soptions (o : soptions) =
+  Printf.sprintf "{| so_flow := %s; so_frame_size := %s; so_logical := %s; so_params := {| p_gen := %s; p_star := %s; p_delimited := %s; p_nd := %s; p_name := %s |}; so_maxn := %s; so_maxp := %s; so_maxd := %s |}"
+    (cq_opt (fun f -> "(" ^ cq_flow f ^ ")") o.so_flow) (cq_n o.so_frame_size) (cq_n o.so_logical)
+    (cq_bool o.so_params.p_gen) (cq_bool o.so_params.p_star) (cq_bool o.so_params.p_delimited) (cq_bool o.so_params.p_nd)
+    (cq_bytes o.so_params.p_name) (cq_n o.so_maxn) (cq_n o.so_maxp) (cq_n o.so_maxd)
+let cq_sdata (d : sdata) =
+  Printf.sprintf "{| d_is_sink := %s; d_namespaces := %s; d_stmts := %s |}" (cq_bool d.d_is_sink) (cq_pairs d.d_namespaces) (cq_stmts d.d_stmts)
+let cq_class c = match c with TripleStream -> "TripleStream" | QuadStream -> "QuadStream" | GraphStream -> "GraphStream"
+let cq_integ i = match i with Generic -> "Generic" | Rdflib -> "Rdflib"
+let cq_nat (i : int) = "(" ^ string_of_int i ^ ")%nat"
+let cq_lk (o : lk_obs) =
+  Printf.sprintf "{| lo_entry := %s; lo_term := %s; lo_resolved := %s; lo_wlen := %s; lo_la_w := %s; lo_lr_w := %s; lo_la_r := %s; lo_lr_r := %s |}"
+    (cq_opt cq_n o.lo_entry) (cq_n o.lo_term) (cq_opt cq_bytes o.lo_resolved) (cq_n o.lo_wlen) (cq_n o.lo_la_w) (cq_n o.lo_lr_w) (cq_n o.lo_la_r) (cq_n o.lo_lr_r)
+let cq_tev (e : tev) =
+  match e with
+  | Pull -> "(0, (@nil N))" | Emit f -> "(1, " ^ cq_bytes (ser_frame f) ^ ")" | Raise _ -> "(2, (@nil N))"
+
+let handle_xc () : string =
+  match next () with
+  | "LK" ->
+    let rs = next () in
+    let rule = (match rs with "n" -> LkName | "p" -> LkPrefix | "d" -> LkDatatype | _ -> failwith "rule") in
+    let size = next_n () in
+    let k = next_int () in
+    let keys = repeat k next_hex in
+    let res = api_lookup rule size keys in
+    Printf.sprintf "api_lookup %s %s %s = %s"
+      (match rule with LkName -> "LkName" | LkPrefix -> "LkPrefix" | LkDatatype -> "LkDatatype") (cq_n size)
+      (if keys = [] then "(@nil str)" else cq_list cq_bytes keys)
+      (if res = [] then "(@nil (option lk_obs))" else cq_list (cq_opt cq_lk) res)
+  | "EN" ->
+    let (cls, ig, o) = next_config () in
+    let d = next_sdata () in
+    let res = (match api_encode cls ig o d with
+        | Err _ -> "None"
+        | Ok (s, evs) ->
+          Printf.sprintf "(Some (%s, %s, %s))" (if evs = [] then "(@nil (N * list N))" else cq_list cq_tev evs)
+            (cq_nat (List.length s.st_flow.fl_rows)) (cq_bool s.st_failed)) in
+    Printf.sprintf "obs_encode %s %s (%s) (%s) = %s" (cq_class cls) (cq_integ ig) (cq_soptions o) (cq_sdata d) res
+  | "PA" ->
+    let ig = (match next () with "g" -> Generic | "r" -> Rdflib | _ -> failwith "integ") in
+    let grouped = next_bool () in let strict = next_bool () in
+    let b = next_hex () in
+    let r = api_parse ig grouped strict b in
+    let pfr (fr : frame_result) = let ((md, evs), err) = fr in
+      Printf.sprintf "(%s, %s, %s)" (cq_pairs md) (cq_events evs) (cq_bool (err <> None)) in
+    Printf.sprintf "obs_parse %s %s %s %s = (%s, %s, %s)" (cq_integ ig) (cq_bool grouped) (cq_bool strict) (cq_bytes b)
+      (cq_nat (int_of_nat r.pr_preread)) (cq_bool (r.pr_end = PEnd))
+      (if r.pr_frames = [] then "(@nil (list (str * str) * list event * bool))" else cq_list pfr r.pr_frames)
+  | "SB" ->
+    let b = next_hex () in
+    let v = api_spec_bytes b in
+    let pv = (match v with
+        | None -> "None"
+        | Some (Valid evs) -> "(Some (Valid " ^ cq_events evs ^ "))"
+        | Some (Invalid (i, c, evs)) -> Printf.sprintf "(Some (Invalid %s %s %s))" (cq_nat (int_of_nat i)) (pclass c) (cq_events evs)) in
+    Printf.sprintf "api_spec_bytes %s = %s" (cq_bytes b) pv
+  | "AU" ->
+    let b = next_hex () in
+    let pc = (match api_audit_bytes b with
+        | None -> "None"
+        | Some c -> Printf.sprintf "(Some {| c_redundant := %s; c_elision := %s; c_zero := %s; c_gstart := %s; c_entries := %s |})"
+                      (cq_n c.c_redundant) (cq_n c.c_elision) (cq_n c.c_zero) (cq_n c.c_gstart) (cq_n c.c_entries)) in
+    Printf.sprintf "api_audit_bytes %s = %s" (cq_bytes b) pc
+  | c -> failwith ("no cross-check form for " ^ c)
+
 let handle () : string =
   match next () with
+  | "XC" -> handle_xc ()
   | "LK" ->
     let rule = (match next () with "n" -> LkName | "p" -> LkPrefix | "d" -> LkDatatype | _ -> failwith "rule") in
     let size = next_n () in
